@@ -365,6 +365,7 @@ SCALAR_OFF = {"sp": 66, "e": 98, "sd": 130}
 SCALAR_SUBS = ["zero", "n", "n_plus_1", "max", "plus_n", "negate", "inc", "dec", "one", "n_minus_1"]
 POINT_SUBS = ["neg", "offcurve", "other_oncurve", "x_ge_p", "prefix"]
 FLAT_MUTS = (["bitflip"] * 12 + ["scalar:%s:%s" % (f, sub) for f in ("sp", "e", "sd") for sub in SCALAR_SUBS]
+             + ["scalar:sp:zero", "scalar:sp:n", "scalar:sp:plus_n", "scalar:sd:n", "scalar:sd:plus_n", "scalar:sd:zero", "scalar:e:zero"] * 2
              + ["point:%s:%s" % (f, sub) for f in ("R", "Rp") for sub in POINT_SUBS] * 2 + ["swap_points"] * 2
              + ["ctx_X:" + x for x in ("other", "neg", "swap")] + ["ctx_Y:" + x for x in ("other", "neg", "swap")]
              + ["ctx_msg:" + x for x in ("flip", "plus_n", "minus_n", "other")] * 2)
